@@ -339,7 +339,7 @@ class ImplWorld:
             if callable(v):
                 continue
             try:
-                ctx.append([k, enc_val(v)])
+                ctx.append([k, enc_val(v, floats=True)])
             except Unsupported:
                 ctx.append([k, {'unsupported': repr(v)[:80]}])
         ctx.sort(key=lambda p: p[0])
